@@ -10,8 +10,10 @@
 EXTENDS Naturals, Sequences, FiniteSets, TLC, Json
 \* request classes and the set of statuses the framework may answer with
 ReqClasses == {"ok", "unknownmethod", "badmethodbytes", "spaceintarget", "noversion", "clabc", "clneg", "dupcl", "badchunk",
-               "hugeheader", "hugetarget", "bodytoolarge", "hostileheaders", "hostileframing", "absoluteuri"}
-Status(r) == CASE r = "ok" -> {200} [] r = "absoluteuri" -> {200} [] r = "hostileheaders" -> {200}
+               "hugeheader", "hugetarget", "bodytoolarge", "hostileheaders", "hostileframing", "absoluteuri", "removedstandard"}
+\* "removedstandard": a standard method (DELETE) that the application variant "methods" has removed from RequestMethods
+Status(r, v) == CASE r = "removedstandard" -> (IF v = "methods" THEN {501} ELSE {200})
+               [] r \in {"ok", "burst"} -> {200} [] r = "absoluteuri" -> {200} [] r = "hostileheaders" -> {200}
                \* values the server's own request parser looks at (Host, Transfer-Encoding, multipart boundary): it may serve, not find or reject
                [] r = "hostileframing" -> {200, 400, 404}
                [] r = "unknownmethod" -> {501} [] r = "badmethodbytes" -> {400, 501}
@@ -21,7 +23,7 @@ Status(r) == CASE r = "ok" -> {200} [] r = "absoluteuri" -> {200} [] r = "hostil
 \* a status the framework answers itself before any handler ran closes the connection; 200 and 501 (fiber's own
 \* "method not implemented", answered on a well-formed request) keep it
 Closing(st) == st \notin {200, 404, 501}
-Fate(r) == {[status |-> st, second |-> IF Closing(st) THEN 0 ELSE 200] : st \in Status(r)}
+Fate(r, v) == {[status |-> st, second |-> IF Closing(st) THEN 0 ELSE 200] : st \in Status(r, v)}
 \* response helpers a handler may call, and hostile argument classes
 Helpers == {"set", "append", "vary", "location", "redirect", "cookievalue", "cookiepath", "cookiedomain", "links", "typecharset",
             "attachment", "download", "jsonp", "format", "flash", "sendstring"}
@@ -36,22 +38,27 @@ Init == conn = "idle" /\ first = "" /\ helper = "" /\ arg = "" /\ ctxkind \in Ct
 Read1 == /\ conn = "idle" /\ served = <<>> /\ \E r \in ReqClasses : first' = r
          /\ conn' = "read" /\ UNCHANGED <<helper, arg, ctxkind, served>>
 \* malformed: the mapped 4xx, then the connection is closed
-Reject == /\ conn = "read" /\ \E st \in Status(first) : Closing(st) /\ served' = Append(served, st) /\ conn' = "closed"
+Reject == /\ conn = "read" /\ \E st \in Status(first, ctxkind) : Closing(st) /\ served' = Append(served, st) /\ conn' = "closed"
           /\ UNCHANGED <<first, helper, arg, ctxkind>>
 \* well-formed: the handler runs and calls a response helper with an argument of some class
 Dispatch == /\ conn = "read"
-            /\ \E st \in Status(first) : ~Closing(st) /\ served' = Append(served, st)
+            /\ \E st \in Status(first, ctxkind) : ~Closing(st) /\ served' = Append(served, st)
             /\ \E h \in Helpers, a \in ArgClasses : helper' = h /\ arg' = a
             /\ conn' = "idle2" /\ UNCHANGED <<first, ctxkind>>
 \* a second, plain request on the same connection: served iff the connection is still open
 Second == /\ conn \in {"idle2", "closed"} /\ Len(served) = 1
           /\ served' = Append(served, IF conn = "closed" THEN 0 ELSE 200)       \* 0: no response, the peer closed
           /\ conn' = "done" /\ UNCHANGED <<first, helper, arg, ctxkind>>
-Next == Read1 \/ Reject \/ Dispatch \/ Second
+\* several connections at once, each with one well-formed request for the same target (the plain handler, or a file sent with
+\* an option set nobody used before): every one of them is answered -- no first-use race may wedge the server
+BurstTargets == {"ok", "sendfile", "download"}
+Burst == /\ conn = "idle" /\ served = <<>> /\ \E tg \in BurstTargets : helper' = tg
+         /\ first' = "burst" /\ arg' = "plain" /\ served' = <<200, 200>> /\ conn' = "done" /\ UNCHANGED ctxkind
+Next == Read1 \/ Reject \/ Dispatch \/ Second \/ Burst
 Spec == Init /\ [][Next]_vars
 
 NoResponseAfterMalformed == conn = "done" => (served[2] = 0 <=> Closing(served[1]))
 \* only for well-formed first requests does a helper run; the helper scenario is meaningful only for the plain request
-Emit == conn = "done" /\ (first = "ok" \/ helper \in {"", "set"}) /\ (first = "ok" \/ arg \in {"", "plain"}) =>
-          PrintT(<<"CASE", ToJson([first |-> first, helper |-> helper, arg |-> arg, ctx |-> ctxkind, fate |-> Fate(first)])>>)
+Emit == conn = "done" /\ (first \in {"ok", "burst"} \/ helper \in {"", "set"}) /\ (first = "ok" \/ arg \in {"", "plain"}) =>
+          PrintT(<<"CASE", ToJson([first |-> first, helper |-> helper, arg |-> arg, ctx |-> ctxkind, fate |-> Fate(first, ctxkind)])>>)
 =============================================================================
